@@ -89,10 +89,19 @@ func main() {
 	if !run.Thorough() {
 		add(two, core, false, vsched.Config{P: 2, Preempt: fine, MaxSteps: 5000})
 		add(two, wide, false, vsched.Config{P: 1, Preempt: fine, MaxSteps: 5000})
-		add(two, progs("L", "T", "C", "LT", "LL", "Lh"), true, vsched.Config{P: 1, F: 1, Preempt: fine, MaxSteps: 5000})
+		add(two, progs("L", "T", "C", "LT", "LL"), true, vsched.Config{P: 1, F: 1, Preempt: fine, MaxSteps: 5000})
+		// a holder that stays in the critical section for half a lease while the other one retries (fault on the release path)
+		for _, tn := range []string{"a", "c"} {
+			for _, other := range progs("L", "T", "LT") {
+				for _, ps := range [][]lockh.Prog{{progs("Lh")[0], other}, {other, progs("Lh")[0]}} {
+					sc := &lockh.Scenario{Topo: lockh.Topologies[tn], Progs: ps, Shutdown: -1, Lease: lease, Faults: true}
+					jobs = append(jobs, job(sc, vsched.Config{P: 1, F: 1, Preempt: fine, MaxSteps: 5000}))
+				}
+			}
+		}
 		add([]string{"d"}, progs("L", "T"), false, vsched.Config{P: 1, Preempt: fine, MaxSteps: 5000})
 		add([]string{"e"}, progs("L", "T"), true, vsched.Config{P: 0, F: 1, Preempt: fine, MaxSteps: 5000})
-		bounds["tiers"] = "2 threads {L,T,C,X}^2 P<=2; {L,T,C,LL,Lh,TT}^2 P<=1; faults F<=1 with P<=1 on {L,T,C,LT,LL,Lh}^2 and with P=0 on 3 providers {L,T}^3; 3 threads {L,T}^3 P<=1"
+		bounds["tiers"] = "2 threads {L,T,C,X}^2 P<=2; {L,T,C,LL,Lh,TT}^2 P<=1; faults F<=1 with P<=1 on {L,T,C,LT,LL}^2, on Lh x {L,T,LT} and with P=0 on 3 providers {L,T}^3; 3 threads {L,T}^3 P<=1"
 		budget = 4 * time.Minute
 	} else {
 		add(two, core, false, vsched.Config{P: 3, Preempt: fine, MaxSteps: 5000})
